@@ -68,6 +68,29 @@ def long_recipes(rng, n):
     return out
 
 
+def power_boundaries():
+    """Terms of the count that are exactly 2^31, 2^32, 2^63, 2^64 (a machine-word shortcut for small powers wraps exactly there):
+    the alphabet, or the alphabet without a required set, has 2^k characters and the length is 31/k, 32/k, 63/k, 64/k or next to it."""
+    out = []
+    def c(L, allow_chars, sets):
+        ch = dict(len=L, allow=0, require=0, exclude=0, allowChars=allow_chars, requireSets=sets, excludeChars=[])
+        return dict(kind="char", char=ch, maxTrials=0, failRateOne=0, mode="paths", paths=0, maxLeaves=0, tag="power-boundary")
+    cjk = lambda n, off=0: [0x4E00 + off + i for i in range(n)]
+    for k in (1, 2, 3, 4, 5, 6, 8):       # (2^16 characters: the set algebra over such an alphabet takes TLC minutes per cell)
+        b = 1 << k
+        for total in (31, 32, 63, 64):
+            if total % k:
+                continue
+            for L in (total // k - 1, total // k, total // k + 1):
+                if L < 1:
+                    continue
+                if b <= 512:
+                    out.append(c(L, cjk(b), [cjk(max(1, b // 4))]))                 # |alphabet| = 2^k, a quarter of it required
+                    out.append(c(L, cjk(b), [[ord("x"), ord("y")]]))                # |alphabet without the required set| = 2^k
+                    out.append(c(L, cjk(b, 2), [cjk(3), cjk(3, b)]))                # two overlapping-free sets around a 2^k core
+    return out
+
+
 def flag_only(rng, quick):
     """Recipes made of class flags alone: every allow x exclude pair without requirements (the count is |alphabet|^L: overlapping
     classes - Ambiguous shares characters with Uppers, Lowers and Digits - must not be counted twice), and allow x require x exclude
@@ -114,6 +137,7 @@ def run(ctx):
     scen += long_recipes(rng, 16 if quick else 200)
     scen += many_sets()
     scen += flag_only(rng, quick)
+    scen += power_boundaries()
     files, cells, leaves = charfam.run_scenarios(ctx, scen, "c07", shards=vlib.NCPU)
     sf, sc_, sl = charfam.run_sequences(ctx, charfam.collision_sequences(), "c07")
     files, cells, leaves = files + sf, cells + sc_, leaves + sl
